@@ -22,6 +22,7 @@ type IncOpts struct {
 	StepCap   int
 	Snapshots bool // clone the fs after every journal entry (crash-state enumeration)
 	Fault     *FaultSpec
+	Fault2    *FaultSpec // a second, independent failure in the same run
 	NoDur     bool
 	MinDur    int64 // lower bound for command durations (coarse-clock runs)
 	TZOffset  int   // local time zone of this incarnation (seconds east of UTC)
@@ -110,11 +111,13 @@ func RunInc(w *WF, t *simrt.Tape, root *simrt.Inode, nextIno int, o IncOpts) *In
 			op.DurNS = o.MinDur
 		}
 		op.Chunks = 1 + t.Choose(simrt.StDur, 3, 0.5)
-		if f := o.Fault; f != nil && !f.Hit {
-			if (f.Key != "" && f.Key == op.Key) || (f.Key == "" && f.Seq == op.Seq) {
-				f.Hit = true
-				op.Fail = f.Mode
-				op.FailArg = f.Arg
+		for _, f := range []*FaultSpec{o.Fault, o.Fault2} {
+			if f != nil && !f.Hit && op.Fail == simrt.FailNone {
+				if (f.Key != "" && f.Key == op.Key) || (f.Key == "" && f.Seq == op.Seq) {
+					f.Hit = true
+					op.Fail = f.Mode
+					op.FailArg = f.Arg
+				}
 			}
 		}
 	}
